@@ -25,6 +25,22 @@ NA = {
 PENDING = "check not built yet in this round (planned: DESIGN.md section 5)"
 
 CHECKS = {
+    "C09": dict(
+        engine="E2 dask-in-memory",
+        category="exploration",
+        text="The shuffle behind pack_partitions moves every row between partitions; the simulated "
+             "executor decides worker count (1..16), task order and overlap (random / PCT / in-order / "
+             "stalled workers). After each run: row-multiset conservation against the model, each row's "
+             "index against the pandas-level Hilbert distance for the model's tight total bounds, order "
+             "within and across partitions, partition count, and independence from a second input "
+             "partitioning (explicit splits with empty partitions included). Sampling, not proof.",
+        design_ref="DESIGN.md 5/C09",
+        note="a call that raises claims nothing; known finding F05 (fewer partitions than requested when "
+             "Dask's set_index delivers fewer) is reported as KNOWN-FINDING; trusted: dask graph "
+             "construction, pandas, the pandas-level hilbert_distance as oracle",
+        technique="deterministic simulation of the task schedule, conservation/ordering invariants "
+                  "against a row-level model",
+    ),
     "C19": dict(
         engine="E1 pack-to-storage",
         category="fault_enumeration",
@@ -101,6 +117,10 @@ def main():
             {"name": "E1 pack-to-storage", "path": "dsim/e1.py",
              "serves_properties": ["C10", "C19"],
              "kind_free_text": "real pack_partitions_to_parquet on SimFS under the simulated Dask executor"},
+            {"name": "E2 dask-in-memory", "path": "dsim/e2.py",
+             "serves_properties": ["C09"],
+             "kind_free_text": "Dask collections executed task by task by the simulated executor, "
+                               "compared with the pandas frame they represent"},
         ],
         "checks": checks,
         "not_applicable": na,
